@@ -284,6 +284,8 @@ class Gen(object):
                "blur": p["blur"] if p["blur"] is not None else r.choice([None, None, 1, 7, 60, 3600])}
         if p["blur"] == "none":
             cfg["blur"] = None
+        if p["blur"] == "rand":
+            cfg["blur"] = r.choice([1, 7, 20, 60, 100, 777, 3600, 86400, r.randrange(1, 5000)])
         if p["welcome"] or r.random() < 0.2:
             cfg["motd"] = r.choice(["hello", "mötd"])
             if r.random() < 0.5:
